@@ -60,6 +60,7 @@ PROPS = {
     "C04": {
         "level": "proof",
         "verus": [("daterange", None), ("balance", ["Balance::add_amount", "Balance::add_posting_amount"])],
+        "family": ("c04", {"quick": [], "thorough": []}),
         "explanation": "Verus proves (a) DateRange::contains is exactly start <= d < end with open ends as infinity, adjacent windows partition their union and empty windows contain nothing, "
                        "is_bypass/require_recompute choose the stored balance only for an unbounded window without per-posting conversion; (b) every update of the running Balance adds the posting to that "
                        "account only and never stores a zero-valued commodity.  The re-fold in Ledger::balance and the register's running total are iterator-adapter code and are NOT decided.",
@@ -155,6 +156,7 @@ PROPS = {
     "C20": {
         "level": "proof",
         "verus": [("golden", None)],
+        "family": ("c20", {"quick": [], "thorough": []}),
         "explanation": "Verus proves the control logic of the golden helper for all contents and paths over an assumed model of std::fs / std::env: is_update_golden is exactly 'UPDATE_GOLDEN set to a non-empty value'; "
                        "read_as_utf8 returns the file with CRLF replaced by LF; Golden::new fails on a missing file unless updating; Golden::assert is verified under two contract variants of the same extracted body — "
                        "(succeeds) when updating or got equals the normalised content the comparison holds, and the only write is of exactly `got` to the golden path under UPDATE_GOLDEN; (fails) when not updating and "
